@@ -337,10 +337,17 @@ func sendStreams(ctx context.Context, qs quicStreams, ws []wire, wait time.Durat
 }
 
 func runMoQ(e *Exchange, p Ports, o execOpts) string {
-	ctx, cancel := context.WithTimeout(context.Background(), 6*time.Second)
+	ctx, cancel := context.WithTimeout(context.Background(), 9*time.Second)
 	defer cancel()
-	conn, err := quic.DialAddr(ctx, p.addr(e.Seed.Port), &tls.Config{InsecureSkipVerify: true, NextProtos: []string{e.Seed.ALPN}}, //nolint:gosec
-		&quic.Config{EnableDatagrams: true})
+	var conn *quic.Conn
+	var err error
+	for attempt := 0; attempt < 3; attempt++ {
+		conn, err = quic.DialAddr(ctx, p.addr(e.Seed.Port), &tls.Config{InsecureSkipVerify: true, NextProtos: []string{e.Seed.ALPN}}, //nolint:gosec
+			&quic.Config{EnableDatagrams: true, HandshakeIdleTimeout: 2 * time.Second})
+		if err == nil {
+			break
+		}
+	}
 	if err != nil {
 		return "moq:dial-error"
 	}
@@ -358,7 +365,15 @@ func runMoQW(e *Exchange, p Ports, o execOpts) string {
 		ApplicationProtocols: []string{e.Seed.ALPN},
 	}
 	defer d.Close() //nolint:errcheck
-	res, sx, err := d.Dial(ctx, "https://"+p.addr(e.Seed.Port)+e.Seed.URL, http.Header{"User-Agent": {"verif"}})
+	var res *http.Response
+	var sx *webtransport.Session
+	var err error
+	for attempt := 0; attempt < 3; attempt++ {
+		res, sx, err = d.Dial(ctx, "https://"+p.addr(e.Seed.Port)+e.Seed.URL, http.Header{"User-Agent": {"verif"}})
+		if err == nil {
+			break
+		}
+	}
 	if err != nil {
 		return "moqw:dial-error"
 	}
